@@ -53,6 +53,13 @@ CHECKS = {
         "note": "Trusted: TLC, the table projection (harness/real.table_json). Bounded: F(3,3), F(4,2), F(4,3) over 3 nonterminals sampled with fixed seeds, "
                 "seeded random grammars up to 8 productions; main and LAYOUT start productions; no claim beyond the bound.",
     },
+    "C06": {
+        "engine": "tlc-trace", "design_ref": "DESIGN.md 3.9 Prec, 7 C06",
+        "technique": "Prec.tla: TLC enumerates all trees of each expression, selects the unique PrecCorrect tree (uniqueness checked per case) and compares with recorded Parser / GLRParser / stratified-grammar results",
+        "level": "For every operator table and expression of the explored space the real LR parser (all prefer-shift strategies off) constructs and returns the unique "
+                 "precedence-correct tree, GLRParser returns exactly that one tree, malformed expressions are rejected, and marks added to the stratified LALR(1) grammar change nothing.",
+        "note": "Trusted: TLC, the tagging of nested-list results. The design-level proof that LRTable!Resolve yields conflict-free tables (DESIGN 7 C06 a) is not built; assurance is code-level on the bounded space.",
+    },
     "C07": {
         "engine": "tlc-trace", "design_ref": "DESIGN.md 3.2, 7 C07",
         "technique": "Lexer.tla: exhaustive TLC model check Impl = Doc (LexerMC, 1.5M configurations) + conformance of real candidate order, finish flags and scan outcome of realised terminal configurations (LexCheck.tla), TLC",
